@@ -187,3 +187,7 @@ func IteByte(c bool, a, b byte) byte {
 	}
 	return b
 }
+
+// Released reports whether the library has returned the message to its pool
+// (VM ledger; natively unknown).
+func Released(m interface{}) bool { return false }
